@@ -47,6 +47,9 @@ func ap(v ssa.Value, depth int) string {
 	case *ssa.UnOp:
 		switch x.Op {
 		case token.MUL:
+			if p, ok := Unspill(x).(*ssa.Parameter); ok {
+				return p.Name()
+			}
 			s := ap(x.X, depth+1)
 			if strings.HasPrefix(s, "&") {
 				return s[1:]
@@ -620,4 +623,31 @@ func LoadOfField(v ssa.Value, typeName, field string) bool {
 		return FieldName(x) == field && strings.HasSuffix(TypeName(x.X.Type()), typeName)
 	}
 	return false
+}
+
+// Unspill sees through the heap spill of a captured parameter: a load of an Alloc whose
+// only store is the initial store of a Parameter yields that parameter.
+func Unspill(v ssa.Value) ssa.Value {
+	u, ok := v.(*ssa.UnOp)
+	if !ok || u.Op != token.MUL {
+		return v
+	}
+	al, ok := u.X.(*ssa.Alloc)
+	if !ok {
+		return v
+	}
+	var src ssa.Value
+	n := 0
+	for _, r := range *al.Referrers() {
+		if st, ok := r.(*ssa.Store); ok && st.Addr == al {
+			n++
+			src = st.Val
+		}
+	}
+	if n == 1 {
+		if p, ok := src.(*ssa.Parameter); ok {
+			return p
+		}
+	}
+	return v
 }
